@@ -61,4 +61,13 @@ template<class R> void remember(const char* key, const std::string& args, R&& r,
 
 static inline long U(long i, long n) { return ((i % n) + n) % n; }
 
+// a spelling handed to the library through a buffer that is reused for the next spelling (not NUL-terminated)
+static inline ipr::util::word_view scratch_word(const std::u8string& s)
+{
+   static char8_t buffer[64];
+   std::size_t n = s.size() < sizeof buffer ? s.size() : sizeof buffer;
+   for (std::size_t i = 0; i < sizeof buffer; ++i) buffer[i] = i < n ? s[i] : char8_t('#');
+   return { buffer, n };
+}
+
 #endif
